@@ -479,7 +479,11 @@ func (w *world) run(r *hx.Run, c caseT) {
 	}
 	for gi, g := range gotSeq {
 		if !strings.HasPrefix(g, reqType+":") {
-			bad("calls/store-of-other-type-loaded:"+strings.SplitN(g, ":", 2)[0], "loaded "+g)
+			// Consulting a store of another type (say, loading the listed tsa stores early) confers nothing by itself: the
+			// statement forbids that its certificates confer TRUST, which the verdict clauses above judge with the chain
+			// certificate placed in exactly such stores. Recorded, not judged (found over-specified by a property-
+			// preserving change that resolves the whole trust-store configuration first, benign/C03-b2-3).
+			r.Outcome("recorded:calls/store-of-other-type-loaded:" + strings.SplitN(g, ":", 2)[0])
 			continue
 		}
 		idx := -1
@@ -489,7 +493,7 @@ func (w *world) run(r *hx.Run, c caseT) {
 			}
 		}
 		if idx < 0 || !inList[idx] {
-			bad("calls/unlisted-store-loaded", "loaded "+g+" which the applicable statement does not list")
+			r.Outcome("recorded:calls/unlisted-store-loaded") // same reasoning: what an unlisted store holds must not confer trust (verdict clauses)
 			continue
 		}
 		_ = gi
